@@ -1361,6 +1361,10 @@ where
                     // read from I/O stream and fill read buffer
                     let should_disconnect = inner.as_mut().read_available(cx)?;
 
+                    // `read_available` stopped at the buffer cap, i.e. without having polled the
+                    // socket to `Pending`: the read waker is not registered for this poll
+                    let read_buf_was_full = inner.read_buf.len() >= MAX_BUFFER_SIZE;
+
                     // after reading something from stream, clear keep-alive timer
                     if !inner.read_buf.is_empty() && inner.flags.contains(Flags::KEEP_ALIVE) {
                         let inner = inner.as_mut().project();
@@ -1499,7 +1503,30 @@ where
                         inner_p.shutdown_timer,
                     );
 
-                    if inner_p.flags.intersects(Flags::LINGER | Flags::SHUTDOWN) {
+                    // `read_available` did not poll the socket in this poll because the read
+                    // buffer was at its cap, and the buffer has been drained since (a paused payload
+                    // was dropped or completed later in this poll; without a paused payload
+                    // `read_available` has already requested a wake-up): the read waker is not
+                    // registered, so schedule another poll to resume reading.
+                    let resume_read = read_buf_was_full
+                        && inner_p.read_buf.len() < MAX_BUFFER_SIZE
+                        && !inner_p.flags.contains(Flags::READ_DISCONNECT);
+
+                    // The request payload was dropped by the handler or the response body *after*
+                    // `poll_request` found it paused earlier in this poll. The payload's I/O waker
+                    // is dropped together with it, so nothing would wake the dispatcher to drain
+                    // the input that is already buffered (and to arm the keep-alive timer
+                    // afterwards). Schedule another poll; it observes `PayloadStatus::Dropped` and
+                    // consumes the whole read buffer.
+                    let drain_dropped_payload = inner_p.payload.as_ref().is_some_and(|pl| pl.is_dropped())
+                        && !inner_p.read_buf.is_empty()
+                        && !inner_p.flags.contains(Flags::READ_DISCONNECT)
+                        && inner_p.messages.len() < MAX_PIPELINED_MESSAGES;
+
+                    if resume_read
+                        || drain_dropped_payload
+                        || inner_p.flags.intersects(Flags::LINGER | Flags::SHUTDOWN)
+                    {
                         cx.waker().wake_by_ref();
                     }
                     Poll::Pending
